@@ -89,7 +89,12 @@ impl Cache for RandomPolicy {
     fn set(&self, key: KeyType, record: Record) -> Result<SetStatus> {
         let len = record.len() as u64;
         self.incr_mem_usage(len);
-        self.store.set(key, record)
+        let result = self.store.set(key, record);
+        if result.is_err() {
+            // a rejected store keeps nothing: give the charged bytes back
+            self.decr_mem_usage(len);
+        }
+        result
     }
 
     fn delete(&self, key: KeyType, header: CacheMetaData) -> Result<Record> {
